@@ -93,6 +93,12 @@ CLAIMED["C18"] = dict(
     text="Seeded search over interleavings of API calls with the real task scheduler (parent and child on one instance, publication server included); deadlock is detected structurally (every unfinished thread blocked on a lock, none can progress), completion is bounded by a step budget, panics and daemon exits are caught unwinds, and the state after quiescence is compared with a serial execution whenever the per-call outcomes coincide.",
     design_ref="DESIGN.md §5 C18",
 )
+CLAIMED["C10"] = dict(
+    category="exploration",
+    technique="deterministic simulation: seeded delta sequences from several raw publishers against the real publication server, reference model per publisher, interleaved with RRDP updates by the real scheduler, session resets, restarts and publisher removal",
+    text="Model-based seeded search over delta sequences (valid, invalid at one drawn position, look-alike and nested handles, case variants) with full comparison of every publisher's list reply and details after every request, plus the served RRDP files checked by the simulated client population.",
+    design_ref="DESIGN.md §5 C10",
+)
 PENDING = {}
 
 def main():
